@@ -225,7 +225,8 @@ def generate(rng, tier):
     client = {"settings": {"iws": r.choice([None, 1000, 5000]) if big else r.choice([None, None, 25, 100, 1000])},
               "ack_mode": r.choice(["now", "now", "lazy"]), "ack_every": r.choice([0.01, 0.05, 0.4]),
               "streams": streams, "steps": steps,
-              "finish": {"timeout": 60.0, "close": r.choice(["goaway", "goaway", "fin", "rst"])}}
+              # quiet period < http2_ping_keepalive (58 s), so keep-alive PINGs do not count as progress for ever
+              "finish": {"timeout": 50.0, "close": r.choice(["goaway", "goaway", "fin", "rst"])}}
 
     origin = {"kind": okind, "responses": responses, "connect_delay": r.choice([0.0, 0.0, 0.01, 0.2])}
     if okind == "h2":
